@@ -167,8 +167,75 @@ func edgesPropagated(p *load.Program, fn *ssa.Function, base ssa.Value, m string
 			}
 		}
 	}
+	// the special case may live in a helper that is handed the composite: follow it one level
+	for _, b := range fn.Blocks {
+		for _, ins := range b.Instrs {
+			call, ok := ins.(*ssa.Call)
+			if !ok {
+				continue
+			}
+			sc := call.Call.StaticCallee()
+			if sc == nil || sc == fn || sc.Blocks == nil || !p.InPkg(sc) {
+				continue
+			}
+			if _, isSetter := setters[sc.Name()]; isSetter {
+				continue
+			}
+			bi, ai := -1, -1
+			for i, a := range call.Call.Args {
+				if a == base {
+					bi = i
+				}
+				if mainArg != nil && a == mainArg {
+					ai = i
+				}
+			}
+			if bi < 0 || bi >= len(sc.Params) || fn.Parent() == sc {
+				continue
+			}
+			guardsOK := true
+			for _, dc := range dominatingConds(b) {
+				if region != nil && !(dc.at.Block() == region || region.Dominates(dc.at.Block())) {
+					continue
+				}
+				if ex, isE := dc.cond.(*ssa.Extract); isE {
+					if _, isTA := ex.Tuple.(*ssa.TypeAssert); isTA {
+						continue
+					}
+				}
+				if bo, isBo := dc.cond.(*ssa.BinOp); isBo && (bo.Op == token.LSS || bo.Op == token.NEQ || bo.Op == token.EQL) {
+					continue
+				}
+				guardsOK = false
+			}
+			if !guardsOK {
+				continue
+			}
+			var subArg ssa.Value
+			if ai >= 0 && ai < len(sc.Params) {
+				subArg = sc.Params[ai]
+			} else if mainArg != nil {
+				continue // the helper does not receive the value being set
+			}
+			for f := range edgesPropagatedIn(p, sc, sc.Params[bi], m, setters, evalGuards, subArg, sc.Params[bi]) {
+				got[f] = true
+			}
+		}
+	}
 	return got
 }
+
+// edgesPropagatedIn is edgesPropagated for a helper (no further helper following).
+func edgesPropagatedIn(p *load.Program, fn *ssa.Function, base ssa.Value, m string, setters map[string]int, evalGuards map[int]map[string]bool, mainArg ssa.Value, mainRecv ssa.Value) map[int]bool {
+	if helperDepth > 0 {
+		return map[int]bool{}
+	}
+	helperDepth++
+	defer func() { helperDepth-- }()
+	return edgesPropagated(p, fn, base, m, setters, evalGuards, mainArg, mainRecv)
+}
+
+var helperDepth int
 
 // fieldOfBase: v derives (loads, element addresses, embedded fields) from field f of base.
 func fieldOfBase(v ssa.Value, base ssa.Value, depth int) (int, ssa.Value, bool) {
@@ -981,6 +1048,48 @@ func ruleUDecode(c *engine.Context) *report.Rule {
 				"%s returns, on some path, a string that was not produced by encoding/json.Unmarshal: member names decoded on that path can differ from what the JSON decoder (and therefore the document's own keys) would give", load.FuncName(fn))
 		}
 	}
+	// functions with a single string result that return only decoder output (directly, or from each other)
+	decodedOnly := map[*ssa.Function]bool{}
+	for changed := true; changed; {
+		changed = false
+		for _, fn := range p.Funcs {
+			if fn.Blocks == nil || !p.ParsePhase[fn] || p.FuncIsGenerated(fn) || decoders[fn] || decodedOnly[fn] {
+				continue
+			}
+			res := fn.Signature.Results()
+			if res.Len() != 1 || !isStr(res.At(0).Type()) {
+				continue
+			}
+			all, n := true, 0
+			for _, b := range fn.Blocks {
+				ret, isRet := b.Instrs[len(b.Instrs)-1].(*ssa.Return)
+				if !isRet {
+					continue
+				}
+				n++
+				okRet := false
+				switch x := ret.Results[0].(type) {
+				case *ssa.Extract:
+					if call, ok := x.Tuple.(*ssa.Call); ok && x.Index == 0 {
+						if sc := call.Call.StaticCallee(); sc != nil && decoders[sc] {
+							okRet = true
+						}
+					}
+				case *ssa.Call:
+					if sc := x.Call.StaticCallee(); sc != nil && decodedOnly[sc] {
+						okRet = true
+					}
+				}
+				if !okRet {
+					all = false
+				}
+			}
+			if all && n > 0 {
+				decodedOnly[fn] = true
+				changed = true
+			}
+		}
+	}
 	helpers := 0
 	for _, fn := range p.Funcs {
 		if fn.Blocks == nil || !p.ParsePhase[fn] || p.FuncIsGenerated(fn) || decoders[fn] {
@@ -994,7 +1103,7 @@ func ruleUDecode(c *engine.Context) *report.Rule {
 		for _, b := range fn.Blocks {
 			for _, ins := range b.Instrs {
 				if call, ok := ins.(*ssa.Call); ok {
-					if sc := call.Call.StaticCallee(); sc != nil && decoders[sc] {
+					if sc := call.Call.StaticCallee(); sc != nil && (decoders[sc] || decodedOnly[sc]) {
 						dcalls = append(dcalls, call)
 					}
 				}
@@ -1018,6 +1127,11 @@ func ruleUDecode(c *engine.Context) *report.Rule {
 						if sc := call.Call.StaticCallee(); sc != nil && decoders[sc] {
 							return true
 						}
+					}
+				case *ssa.Call:
+					// the shared tail of the quote helpers: a function that itself returns only decoder output
+					if sc := x.Call.StaticCallee(); sc != nil && decodedOnly[sc] {
+						return true
 					}
 				case *ssa.Phi:
 					for _, e := range x.Edges {
